@@ -397,6 +397,13 @@ class Manager:
     def removeHandler(self, method, event=None):
         names = method.names if event is None else [event]
 
+        if event is None and not names:
+            # Catch-all handlers are kept in _globals or under '*' (see addHandler)
+            if method in self._globals:
+                self._globals.remove(method)
+            else:
+                names = ['*']
+
         for name in names:
             self._handlers[name].remove(method)
             if not self._handlers[name]:
